@@ -229,6 +229,11 @@ def run(out, info, tier, seed):
         if model is not None and iv in ('accepted', 'rejected', 'incomparable') and not any(k == 'A' for _, _, k in edges):
             start_order = sorted([f'S{k}' for k in range(n)], key=lambda s: (len(grp[int(s[1:])]) > 0, grp[int(s[1:])], int(s[1:])))
             mv, idx = model_verdict(case, model, start_order)
+            if 'roworder_mismatch_cycle' in mv and conv:
+                # the regenerated check on the table in normal form (the hypothesis of its tie) and the model's check on the table as
+                # the model builds it give different verdicts
+                mism.append(dict(desc, model=mv, note='regenerated check on the normal-form table and model check on the model-built table disagree'))
+            mv = mv.replace(' roworder_mismatch_cycle', '')
             if mv.split()[0] != iv:
                 # (non-convex scenarios: mixed-cutoff delays are incomparable, F9, and the closure - also the modelled one,
                 #  which then runs out of fuel - may replace two such delays by each other for ever, F9h)
